@@ -37,6 +37,8 @@ enum Pert {
 	AllHalf,
 	/// 2-chunk linear volume tween on node
 	Tween(usize),
+	/// node built at -12 dB, 2-chunk linear tween up to exactly 0 dB
+	TweenUp(usize),
 	/// effect chain variant on target
 	Fx(usize, u8),
 	/// two sounds on one node
@@ -76,6 +78,7 @@ fn perts(n: usize, nsends: usize) -> Vec<Pert> {
 	}
 	for t in 0..n {
 		v.push(Pert::Tween(t));
+		v.push(Pert::TweenUp(t));
 		v.push(Pert::TwoSounds(t));
 	}
 	if nsends > 0 && n > 0 {
@@ -97,9 +100,12 @@ impl Check for C02 {
 		Level::ModelChecking
 	}
 	fn num_cases(&self, _tier: Tier) -> u64 {
-		grid_cases() + HIST_CASES + 2
+		grid_cases() + HIST_CASES + 3
 	}
 	fn describe(&self, tier: Tier, idx: u64) -> String {
+		if idx == grid_cases() + HIST_CASES + 2 {
+			return "spatial track whose listener was removed: its own output is silence, but its sounds, effects and child tracks are still asked for every frame and a child's send route still delivers".to_string();
+		}
 		if idx >= grid_cases() + HIST_CASES {
 			return format!("E2 interleavings: {}", e2_name(idx - grid_cases() - HIST_CASES));
 		}
@@ -120,6 +126,9 @@ impl Check for C02 {
 		}
 	}
 	fn sig_hint(&self, _tier: Tier, idx: u64) -> String {
+		if idx == grid_cases() + HIST_CASES + 2 {
+			return "listener-less spatial subtree".to_string();
+		}
 		if idx >= grid_cases() + HIST_CASES {
 			return format!("E2 #{}", idx - grid_cases() - HIST_CASES);
 		}
@@ -131,7 +140,7 @@ impl Check for C02 {
 		}
 	}
 	fn rule(&self) -> String {
-		"all 9 forests of <= 3 sub-tracks x internal buffer {1,2,3,4} x {0,1,2} send tracks (routes from track 0, and from the last track for 2 sends) x every subset of {main, tracks} carrying a probe sound x one perturbation at a time (volume -6.0206 / -60 dB on each track, main, send, route; all -6 dB; 2-chunk volume tween; a route declared twice then closed; three order-sensitive effect chains on each track, main, send; the same with a -6 dB fader on that target; two sounds on one track) x 4 callback patterns from {1,3,4,7} frames; plus all histories to depth 3 (4 thorough) over 3 + 6 per track + 1 letters (add sound, drop handle, finish sound, pause, resume, tweened set_volume per track; tweened set_send; send-track volume to -60 dB / back to 0 dB; drop send handle) on fully populated forests; plus E2: all interleavings (preemption bound 2 / 3) of game(add send track; add track routed to it; play) with audio(3 callbacks). Every callback is compared with the reference sum; states = distinct (adopted, marked, removed, pause state) vectors of the model; non-trivial = scenes with at least two contributing sounds and non-silent output".into()
+		"all 9 forests of <= 3 sub-tracks x internal buffer {1,2,3,4} x {0,1,2} send tracks (routes from track 0, and from the last track for 2 sends) x every subset of {main, tracks} carrying a probe sound x one perturbation at a time (volume -6.0206 / -60 dB on each track, main, send, route; all -6 dB; 2-chunk volume tween down and (from -12 dB) up to exactly 0 dB; a route declared twice then closed; three order-sensitive effect chains on each track, main, send; the same with a -6 dB fader on that target; two sounds on one track) x 4 callback patterns from {1,3,4,7} frames; plus all histories to depth 3 (4 thorough) over 5 + 7 per track letters (add sound, drop handle, finish sound, pause, resume, tweened set_volume and faded resume per track; tweened set_send; send-track volume to -60 dB / back to 0 dB; drop send handle) on fully populated forests; plus E2: all interleavings (preemption bound 2 / 3) of game(add send track; add track routed to it; play) with audio(3 callbacks). Every callback is compared with the reference sum; states = distinct (adopted, marked, removed, pause state) vectors of the model; non-trivial = scenes with at least two contributing sounds and non-silent output".into()
 	}
 	fn assumptions(&self) -> Vec<String> {
 		vec![
@@ -146,6 +155,12 @@ impl Check for C02 {
 		tier.pick(120_000, 1_200_000)
 	}
 	fn run_case(&self, tier: Tier, idx: u64, ctx: &mut Ctx) {
+		if idx == grid_cases() + HIST_CASES + 2 {
+			if let Err(p) = catch(|| listenerless_subtree(ctx)) {
+				ctx.fail(format!("panic: {} :: listener-less spatial subtree", p), "");
+			}
+			return;
+		}
 		if idx >= grid_cases() + HIST_CASES {
 			e2_adoption(tier, idx - grid_cases() - HIST_CASES, ctx);
 			return;
@@ -181,6 +196,7 @@ fn build(shape: usize, ibs: usize, nsends: usize, mask: u32, pert: Pert) -> Resu
 		match pert {
 			Pert::Volume(pt, db) if pt == t => db,
 			Pert::VolFx(pt, _) if pt == t => -6.0206,
+			Pert::TweenUp(pt) if pt == t => -12.0,
 			Pert::AllHalf => -6.0206,
 			_ => 0.0,
 		}
@@ -261,6 +277,11 @@ fn grid(tier: Tier, shape: usize, ibs: usize, nsends: usize, ctx: &mut Ctx) {
 								w.set_node_volume(t, -12.0, 2.0 * ibs as f64 / SR as f64);
 							}
 						}
+						if let Pert::TweenUp(t) = pert {
+							if ci == 1 {
+								w.set_node_volume(t, 0.0, 2.0 * ibs as f64 / SR as f64);
+							}
+						}
 						if pert == Pert::DupRoute && ci == 1 {
 							w.set_node_route(0, 0, -60.0, 0.0);
 						}
@@ -304,6 +325,7 @@ fn letters(n: usize) -> Vec<String> {
 		v.push(format!("pause track {} (instant)", i));
 		v.push(format!("resume track {} (instant)", i));
 		v.push(format!("set_volume(track {}, -12 dB over 1 s = 8 frames)", i));
+		v.push(format!("resume track {} (fade-in over 1 s)", i));
 	}
 	v.push("set_volume(send 0, -60 dB, instant)".to_string());
 	v.push("set_volume(send 0, 0 dB, instant)".to_string());
@@ -359,8 +381,8 @@ fn histories(tier: Tier, shape: usize, ibs: usize, ctx: &mut Ctx) {
 					l if l == ls.len() - 2 => w.set_send_volume(0, 0.0, 0.0),
 					l if l == ls.len() - 3 => w.set_send_volume(0, -60.0, 0.0),
 					_ => {
-						let i = (l - 3) / 6;
-						match (l - 3) % 6 {
+						let i = (l - 3) / 7;
+						match (l - 3) % 7 {
 							0 => {
 								let (a, b) = sound_code(5 + extra % 3);
 								extra += 1;
@@ -374,7 +396,8 @@ fn histories(tier: Tier, shape: usize, ibs: usize, ctx: &mut Ctx) {
 							}
 							3 => w.pause_node(i, 0.0),
 							4 => w.resume_node(i, 0.0),
-							_ => w.set_node_volume(i, -12.0, 1.0),
+							5 => w.set_node_volume(i, -12.0, 1.0),
+							_ => w.resume_node(i, 1.0),
 						}
 					}
 				}
@@ -534,4 +557,73 @@ fn e2_adoption(tier: Tier, which: u64, ctx: &mut Ctx) {
 	for (s, d) in fails {
 		ctx.fail(s, d);
 	}
+}
+
+// ---------------------------------------------------------------------------------------------
+// "a removed, paused or unrouted branch contributes exact silence" - and nothing else changes: a spatial track whose
+// listener is gone is silent at its own output, yet everything beneath it is still processed frame by frame
+
+fn listenerless_subtree(ctx: &mut Ctx) {
+	use crate::probes::ProbeSoundData;
+	use crate::rig;
+	use kira::track::{MainTrackBuilder, SendTrackBuilder, SpatialTrackBuilder, TrackBuilder};
+	use std::sync::atomic::Ordering;
+	for ibs in [1usize, 3, 4] {
+		for drop_before in [0usize, 1, 2] {
+			ctx.evals += 1;
+			ctx.traces += 1;
+			let desc = || format!("internal buffer {}, callbacks of [3, 4, 1, 7] frames; listener handle dropped before callback {}", ibs, drop_before);
+			let mut m = rig::manager(SR, ibs, rig::caps(4), MainTrackBuilder::new());
+			let send = m.add_send_track(SendTrackBuilder::new()).expect("send");
+			let listener = m.add_listener(glam::Vec3::ZERO, glam::Quat::IDENTITY).expect("listener");
+			let mut sp = m.add_spatial_sub_track(&listener, glam::Vec3::new(0.0, 0.0, -1.0), SpatialTrackBuilder::new().attenuation_function(None).spatialization_strength(0.0)).expect("spatial");
+			let mut child = sp.add_sub_track(TrackBuilder::new().with_send(&send, 0.0)).expect("child");
+			let a = sp.play(ProbeSoundData::new((0.125, 0.0), (0.125, 0.0))).expect("play on the spatial track");
+			let b = child.play(ProbeSoundData::new((0.25, 0.0), (0.25, 0.0))).expect("play on the child");
+			let mut listener = Some(listener);
+			let mut total = 0u64;
+			let mut bad = None;
+			for (cb, n) in [3usize, 4, 1, 7].into_iter().enumerate() {
+				if cb == drop_before {
+					listener = None;
+				}
+				let mut out = vec![];
+				let rep = rig::render_stereo(&mut m, n, &mut out);
+				ctx.transitions += 1;
+				if !rep.ok() {
+					bad = Some(format!("callback monitor {:?}", rep));
+					break;
+				}
+				total += n as u64;
+				// the listener is removed at the callback after its handle was dropped; from then on the spatial branch is silent
+				// at the main output and only the child's send route (0.25 x 0 dB x 0 dB) is heard
+				let gone = cb >= drop_before + 1 || (drop_before == 0 && cb >= 1);
+				let _ = gone;
+				for (i, f) in out.iter().enumerate() {
+					let with_listener = 0.125 + 0.25 + 0.25;
+					let without = 0.25;
+					if (f.0 - with_listener).abs() > 1e-5 && (f.0 - without).abs() > 1e-5 {
+						bad = Some(format!("callback {} frame {} = {}, expected {} (listener alive: dry spatial branch + send) or {} (listener gone: the child's send route only)", cb, i, f.0, with_listener, without));
+						break;
+					}
+				}
+				if bad.is_some() {
+					break;
+				}
+			}
+			if bad.is_none() {
+				let (fa, fb) = (a.frames_emitted.load(Ordering::SeqCst), b.frames_emitted.load(Ordering::SeqCst));
+				if fa != total || fb != total {
+					bad = Some(format!("the sound on the spatial track was asked for {} frames and the one on its child for {}, {} frames were rendered", fa, fb, total));
+				}
+			}
+			if let Some(b) = bad {
+				ctx.fail("a spatial track whose listener was removed stops processing its sounds / child tracks (or their routes are lost) :: listener-less spatial subtree", format!("{}; {}", desc(), b));
+			}
+			ctx.nontrivial_extra += 1;
+			ctx.state(hash64(&("listenerless", ibs, drop_before)));
+			drop((sp, child, send, listener));
+		}
+	}
+	ctx.outcome(hash64(&"listenerless"));
 }
